@@ -41,7 +41,11 @@ def rand_hard_constraint(rng, seq, kinds=None):
     if k == "keep":
         a = rng.randint(0, n - 1)
         b = rng.randint(a + 1, n)
-        return dict(kind="keep", location=[a, b, rng.choice([-1, 0, 1])])
+        d = dict(kind="keep", location=[a, b, rng.choice([-1, 0, 1])])
+        if rng.random() < 0.15:
+            # a percentage that rounds down to 0 allowed edits: still a hard (enforced) restriction
+            d["max_edits_percent"] = rng.choice([1, 2, 5])
+        return d
     if k == "keep_idx":
         idx = sorted(rng.sample(range(n), rng.randint(1, min(4, n))))
         return dict(kind="keep_idx", indices=idx)
@@ -87,6 +91,8 @@ def build_constraint(d):
     k = d["kind"]
     loc = tuple(d["location"]) if "location" in d else None
     if k == "keep":
+        if d.get("max_edits_percent") is not None:
+            return dc.AvoidChanges(location=loc, max_edits_percent=d["max_edits_percent"])
         return dc.AvoidChanges(location=loc)
     if k == "keep_idx":
         return dc.AvoidChanges(indices=list(d["indices"]))
